@@ -150,8 +150,9 @@ func BuildScratch(needReal bool, logf func(string, ...any)) (*Scratch, error) {
 		dir  string
 	}
 	jobs := []job{
-		{"simworker", []string{"build", "-tags", "verif", "-o", sc.Worker, "./verifsim"}, sc.Src},
-		{"simcli", []string{"build", "-tags", "verif", "-o", sc.SimCLI, "./cmd"}, sc.Src},
+		// -checklinkname=0: internal/simrt reaches the runtime's synctest bubble by linkname
+		{"simworker", []string{"build", "-tags", "verif", "-ldflags=-checklinkname=0", "-o", sc.Worker, "./verifsim"}, sc.Src},
+		{"simcli", []string{"build", "-tags", "verif", "-ldflags=-checklinkname=0", "-o", sc.SimCLI, "./cmd"}, sc.Src},
 	}
 	if needReal {
 		// the unrewritten binaries are built from a second pristine copy so
